@@ -161,6 +161,7 @@ def run(ctx) -> None:
 
     # ---- R7 ---------------------------------------------------------------------
     check_no_broadcast_defaults(ctx, "C18.R7")
+    check_skip_by_resolver_class(ctx, "C18.R1")
 
     # ---- R8 ---------------------------------------------------------------------
     from sa.effects import fmt_effect
@@ -345,28 +346,57 @@ def check_nested_map_inputs(ctx, rule: str) -> None:
                         why = "the inner graph's bound mapping is not consulted"
                         continue
                     good = False
-                    for b in bound_vars:
-                        a_in, a_is = f"{kn} in {b}", f"{vn} is {b}[{kn}]"
+                    mapped_vars = set(vars_from_call(db, f, {"_original_map_params"})) or {"<none>"}
+                    for b, mv in itertools.product(bound_vars, mapped_vars):
+                        a_in, a_is, a_m = f"{kn} in {b}", f"{vn} is {b}[{kn}]", f"{kn} in {mv}"
                         table = {}
-                        for x, y in itertools.product((True, False), repeat=2):
+                        for m_, x, y in itertools.product((True, False), repeat=3):
                             r = True
                             for cond in g.ifs:
-                                e = eval_bool(cond, {a_in: x, a_is: y})
+                                e = eval_bool(cond, {a_in: x, a_is: y, a_m: m_})
                                 r = None if (e is None or r is None) else (r and e)
-                            table[(x, y)] = r
-                        if all(table[(x, y)] is (not (x and y)) for x, y in table):
+                            table[(m_, x, y)] = r
+                        want_ = {k_: (True if k_[0] else not (k_[1] and k_[2])) for k_ in table}
+                        if all(table[k_] is want_[k_] for k_ in table):
                             good = True
                         elif None not in table.values():
-                            dropped = [k_ for k_, r in table.items() if r is False and not (k_[0] and k_[1])]
+                            if table[(True, True, True)] is False:
+                                why = f"a mapped parameter whose list is bound on the inner graph is dropped from the nested map's inputs (filter '{' and '.join(src(i) for i in g.ifs)}'): inner.bind(x=[1, 2, 3]).as_node().map_over('x') fails with KeyError('x') instead of mapping over the bound list"
+                                continue
+                            dropped = [k_ for k_, r in table.items() if r is False and want_[k_]]
                             if dropped:
-                                why = f"an input is dropped although it is not the inner graph's own bound object (filter '{' and '.join(src(i) for i in g.ifs)}'): a value supplied from outside for an inner-bound parameter never reaches the items"
+                                why = f"an input is dropped although it is not the inner graph's own bound object (filter '{' and '.join(src(i) for i in g.ifs)}'): a value supplied from outside for an inner-bound name never reaches the items"
                             else:
                                 why = "the inner graph's own bound objects are forwarded as broadcast values (subject to clone)"
                     if good:
-                        ok, why = True, "every translated input is forwarded unchanged except values that are the inner graph's own bound objects"
+                        ok, why = True, "every translated input is forwarded unchanged except non-mapped values that are the inner graph's own bound objects"
             rep.add(rule, f"{f.qname}:map-inputs", ok, f"{f.module.rel}:{c.lineno}", why)
         if n_sites == 0:
             raise AnalysisError(f"{q}: nested map call not found")
+
+
+def check_skip_by_resolver_class(ctx, rule: str) -> None:
+    """An input is left out of the collected inputs only on the resolver's own classification (``get_value_source``
+    says DEFAULT): a home-made test ('has a signature default and is not in the state') also drops values bound on the
+    enclosing graph, which must reach the nested node as the very object that was bound."""
+    db, rep = ctx.db, ctx.rep
+    from .common import enclosing_facts
+
+    ci = db.func("runners._shared.helpers.collect_inputs_for_node")
+    svars = set(vars_from_call(db, ci, {"get_value_source"}, index=0)) | set(vars_from_call(db, ci, {"get_value_source"}))
+    skips = [n for n in walk_local(ci.node) if isinstance(n, ast.Continue)]
+    comps = [g for n in walk_local(ci.node) if isinstance(n, ast.DictComp) for g in n.generators if g.ifs]
+    bad = []
+    for sk in skips:
+        facts = enclosing_facts(sk)
+        by_class = any(pol and isinstance(a, ast.Compare) and "ValueSource.DEFAULT" in src(a) and any(isinstance(x, ast.Name) and x.id in svars for x in ast.walk(a)) or isinstance(a, ast.Compare) and "ValueSource.DEFAULT" in src(a) and any(isinstance(x, ast.Call) and "get_value_source" in call_names(db, x, ci) for x in ast.walk(a)) and pol for a, pol in facts)
+        if not by_class:
+            bad.append(sk)
+    for g in comps:
+        if not any("ValueSource.DEFAULT" in src(i) for i in g.ifs):
+            bad.append(g.ifs[0])
+    n_sites = len(skips) + len(comps)
+    rep.add(rule, f"{ci.qname}:skip-decided-by-resolver-classification", not bad, f"{ci.module.rel}:{bad[0].lineno if bad else ci.lineno}", f"an input is left to the nested run only when get_value_source classifies it DEFAULT ({n_sites} skip site(s))" if not bad else "an input is left out of a node's collected inputs by a test that is not the resolver's own classification (get_value_source(...) == DEFAULT): a value bound on the enclosing graph for an input that also has an inner signature default is dropped, and the nested node gets a copy of its default instead of the bound object")
 
 
 def check_no_broadcast_defaults(ctx, rule: str) -> None:
